@@ -147,10 +147,12 @@ def add_defendant(citation: CaseCitation, words: Tokens) -> None:
             continue
         if isinstance(word, StopWordToken):
             if word.groups["stop_word"] == "v" and index > 0:
-                citation.metadata.plaintiff = "".join(
+                plaintiff = "".join(
                     str(w) for w in words[max(index - 2, 0) : index]
-                ).strip("( ")
-                offset += len(citation.metadata.plaintiff) + 1
+                ).lstrip("( ")
+                citation.metadata.plaintiff = plaintiff.rstrip("( ")
+                # the full span starts where the plaintiff starts
+                offset += len(plaintiff)
             else:
                 # We don't want to include stop words such as
                 # 'citing' in the span
